@@ -146,9 +146,9 @@ var profiles = map[string]profile{
 		weights: map[string]int{"w": 18, "start": 4, "grant": 6, "sleep": 4, "check": 3, "drain": 3},
 		wkinds:  []string{"noti", "noti", "noti", "noti", "noti", "noti", "noti", "noti", "noti", "noti", "noti", "noti", "noti", "noti", "reset"},
 		parks:   []string{""}},
-	"C14": {minTargets: 2, maxTargets: 4, modes: []string{"stream"}, gatedPct: 10, maxSteps: 30, maxSubs: 4, preload: 4, starPct: 35, pickPct: 30, bulkPct: 4, bulkNs: []int{5, 40, 70},
-		weights: map[string]int{"w": 14, "start": 6, "release": 2, "relw": 2, "check": 2, "drain": 3, "rmadd": 2, "wrace": 3},
-		wkinds:  []string{"noti", "noti", "noti", "noti", "noti", "reset", "remove", "remove", "add", "add"},
+	"C14": {minTargets: 2, maxTargets: 4, modes: []string{"stream"}, gatedPct: 30, maxSteps: 30, maxSubs: 4, preload: 4, starPct: 35, pickPct: 30, bulkPct: 4, bulkNs: []int{5, 40, 70},
+		weights: map[string]int{"w": 14, "start": 6, "release": 2, "relw": 2, "check": 2, "drain": 3, "rmadd": 2, "wrace": 3, "grant": 2},
+		wkinds:  []string{"noti", "noti", "noti", "noti", "noti", "reset", "reset", "remove", "remove", "add", "add"},
 		parks:   []string{"", "", "sub.registered"}},
 }
 
